@@ -121,7 +121,7 @@ func childMain() {
 // ---------- parent ----------
 
 var panicRe = regexp.MustCompile(`(?m)^(panic: .*|fatal error: .*)$`)
-var frameRe = regexp.MustCompile(`(?m)^(github.com/rbell/toolchest/[^\s(]+)`)
+var frameRe = regexp.MustCompile(`(?m)^(github.com/rbell/toolchest/\S+)\(`)
 
 type outcome struct {
 	res      *childResult
